@@ -2,6 +2,7 @@ package main
 
 import (
 	"fmt"
+	"go/constant"
 	"go/types"
 	"os"
 	"path/filepath"
@@ -27,6 +28,10 @@ type Verifier struct {
 	fids    map[*ssa.Function]int
 	gids    map[string]int
 	mu      sync.Mutex
+	initOnlyGlobals map[string]bool // state var names of globals assigned only in init
+	nonNilGlobals   map[string]bool
+	globalSorts     map[string]Sort
+	regexGlobals    map[string]string // state var name -> pattern
 }
 
 func loadVerifier(repo, specDir string) (*Verifier, error) {
@@ -65,7 +70,134 @@ func loadVerifier(repo, specDir string) (*Verifier, error) {
 		return nil, err
 	}
 	v.ct = ct
+	v.analyseGlobals()
 	return v, nil
+}
+
+// analyseGlobals finds package-level variables that are stored only by the package initialiser.
+// Their value is fixed afterwards; when the stored value is the result of a constructor that never
+// returns nil (MustCompile, errors.New, make, &T{}, NewLRU, reflect.TypeOf of a non-nil value)
+// the variable is known to be non-nil.
+func (v *Verifier) analyseGlobals() {
+	v.initOnlyGlobals = map[string]bool{}
+	v.nonNilGlobals = map[string]bool{}
+	v.globalSorts = map[string]Sort{}
+	v.regexGlobals = map[string]string{}
+	written := map[*ssa.Global]bool{}
+	initVal := map[*ssa.Global]ssa.Value{}
+	multi := map[*ssa.Global]bool{}
+	var rootGlobal func(a ssa.Value) *ssa.Global
+	rootGlobal = func(a ssa.Value) *ssa.Global {
+		switch x := a.(type) {
+		case *ssa.Global:
+			return x
+		case *ssa.FieldAddr:
+			return rootGlobal(x.X)
+		case *ssa.IndexAddr:
+			return rootGlobal(x.X)
+		}
+		return nil
+	}
+	for fn := range ssautil.AllFunctions(v.prog) {
+		if fn.Pkg == nil && fn.Parent() == nil {
+			continue
+		}
+		if !v.inRepo(fn) {
+			continue
+		}
+		isInit := fn.Name() == "init" && fn.Parent() == nil
+		for _, b := range fn.Blocks {
+			for _, in := range b.Instrs {
+				st, ok := in.(*ssa.Store)
+				if !ok {
+					continue
+				}
+				g := rootGlobal(st.Addr)
+				if g == nil {
+					continue
+				}
+				if !isInit {
+					written[g] = true
+					continue
+				}
+				if _, direct := st.Addr.(*ssa.Global); direct {
+					if _, seen := initVal[g]; seen {
+						multi[g] = true
+					}
+					initVal[g] = st.Val
+				}
+			}
+		}
+	}
+	e := &enc{v: v, te: v.te, sorts: v.sorts}
+	for _, p := range v.pkgs {
+		if !strings.HasPrefix(p.Pkg.Path(), strings.TrimSuffix(modPath, "/")) {
+			continue
+		}
+		for _, m := range p.Members {
+			g, ok := m.(*ssa.Global)
+			if !ok || written[g] {
+				continue
+			}
+			name := e.globalName(g)
+			v.initOnlyGlobals[name] = true
+			v.globalSorts[name] = v.te.SortOf(g.Type().(*types.Pointer).Elem())
+			val, has := initVal[g]
+			if !has || multi[g] {
+				continue
+			}
+			switch x := val.(type) {
+			case *ssa.Call:
+				if f := x.Common().StaticCallee(); f != nil {
+					switch f.String() {
+					case "regexp.MustCompile":
+						v.nonNilGlobals[name] = true
+						if c, ok := x.Common().Args[0].(*ssa.Const); ok && c.Value != nil {
+							v.regexGlobals[name] = constantString(c)
+						}
+					case "errors.New", "container/list.New":
+						v.nonNilGlobals[name] = true
+					case "reflect.TypeOf":
+						if mi, ok := x.Common().Args[0].(*ssa.MakeInterface); ok {
+							_ = mi
+							v.nonNilGlobals[name] = true
+						}
+					}
+					if v.inRepo(f) && f.Name() == "NewLRU" {
+						v.nonNilGlobals[name] = true
+					}
+				}
+			case *ssa.MakeMap, *ssa.Alloc, *ssa.MakeSlice:
+				v.nonNilGlobals[name] = true
+			case *ssa.MakeInterface:
+				v.nonNilGlobals[name] = true
+			}
+		}
+	}
+}
+
+func constantString(c *ssa.Const) string {
+	if c.Value.Kind() == constant.String {
+		return constant.StringVal(c.Value)
+	}
+	return ""
+}
+
+// functypeFor: the declared function type (functype contract) whose signature fn has, if any.
+func (v *Verifier) functypeFor(fn *ssa.Function) *FuncContract {
+	if fn.Signature.Recv() != nil || fn.Parent() != nil {
+		return nil
+	}
+	for name, ft := range v.ct.FuncType {
+		t := v.lookupType(name)
+		if t == nil {
+			continue
+		}
+		if sig, ok := t.Underlying().(*types.Signature); ok && types.Identical(sig, fn.Signature) {
+			return ft
+		}
+	}
+	return nil
 }
 
 func (v *Verifier) inRepo(fn *ssa.Function) bool {
